@@ -205,6 +205,9 @@ def rc_stage(run, prop, count, replay_cases=None):
     cases = [json.loads(l) for l in out.splitlines() if l.startswith("{")]
     # the stored minimal cases (direct host: long bursts into one stream, stale wakers ...) are replayed too and
     # compared with the reference semantics of a command (C04_ok) beside the one of an app (RC_ok)
+    # bursts of more than a thousand outputs (generated for C01/C03/C04/C05: nothing may be parked on the way up) cost the
+    # reference semantics tens of seconds and gigabytes each and say nothing about routing: they are left to those checks
+    cases = [c for c in cases if (c["handlers"] + c["prog"]).count("TEmit") < 600]
     cases = corpus_cases(bins["rt_run"]) + cases
     if replay_cases:
         cases = [dict(c, size=c.get("size", 4)) for c in replay_cases]
